@@ -152,18 +152,17 @@ fn run_case(case: &J) -> J {
     walk(&ast, 0, &mut hist, &mut compound, &mut max_depth, &mut last);
     let tree = aquah::ast2coq::instr(&ast);
 
-    let (out_term, class, lines, has_nl_operand) = match run_real(script, step, hopon) {
+    let (out_term, class, lines) = match run_real(script, step, hopon) {
         Out::Text(s) => {
             let n = s.matches('\n').count();
-            (format!("(BOk {})", c::s(&s)), "ok", n, false)
+            (format!("(BOk {})", c::s(&s)), "ok", n)
         }
         Out::Failed(e) => {
             return json!({"coq": [], "classes": ["beautifier_failed_on_accepted_script"], "info": [{"error": e}],
                           "error": format!("beautifier refused a script the parser accepts: {}", e)});
         }
-        Out::Panicked => ("BCrash".to_string(), "panic", 0, false),
+        Out::Panicked => ("BCrash".to_string(), "panic", 0),
     };
-    let _ = has_nl_operand;
     let term = format!(
         "{{| c_tree := {}; c_step := {}; c_hopon := {}; c_out := {} |}}",
         tree,
